@@ -1,13 +1,13 @@
 From Coq Require Import List NArith Bool Arith Lia.
-From LTV.C17 Require Import ParamsGen.
+From LTV.C17 Require Import ParamsProbe.
 From LTV.C17 Require Import Model.
 Import ListNotations.
 
 (* the generated constants are the bit layout the model assumes *)
 Definition params_ok : bool :=
-  (Params.c17_cancel_increment =? 16)%N && (Params.c17_cw_increment =? 16)%N &&
-  (Params.c17_count_mask =? 7)%N && (Params.c17_expected_mask_inv =? 7)%N &&
-  (Params.c17_deadlock_flag =? 8)%N && (Params.c17_id_word_bits =? 32)%N &&
-  (gmod * Params.c17_cancel_increment =? 2 ^ Params.c17_id_word_bits)%N.
+  (Probe.c17_cancel_increment =? 16)%N && (Probe.c17_cw_increment =? 16)%N &&
+  (Probe.c17_count_mask =? 7)%N && (Probe.c17_expected_mask_inv =? 7)%N &&
+  (Probe.c17_deadlock_flag =? 8)%N && (Probe.c17_id_word_bits =? 32)%N &&
+  (gmod * Probe.c17_cancel_increment =? 2 ^ Probe.c17_id_word_bits)%N.
 Lemma params_ok_now : params_ok = true.
 Proof. vm_compute. reflexivity. Qed.
